@@ -1,7 +1,7 @@
 """Data for MANIFEST.json (edit here, then run tools_manifest.py)."""
 
-PYVC_PROPS = ["C08", "C16"]
-BOUNDED_PROPS: list[str] = ["C09", "C10", "C11", "C12", "C15"]
+PYVC_PROPS = ["C04", "C08", "C16"]
+BOUNDED_PROPS: list[str] = ["C04", "C09", "C10", "C11", "C12", "C15"]
 
 
 def chk(pid, category, text, note, technique, design_ref):
@@ -19,6 +19,24 @@ def chk(pid, category, text, note, technique, design_ref):
 
 
 CHECKS = [
+    chk("C04", "proof",
+        "Proved for all inputs (every enrolled obligation generated from the current source of tel2puml/events.py is discharged): the class invariant "
+        "of Event - the cached gate tree is either marked stale or equals calculate_logic_gates(event_sets) - is established by __init__ and "
+        "re-established by every method that touches the successor sets (update_event_sets, remove_event_type_from_event_sets, the getter), with frame "
+        "clauses (no other Event object, no other field changes); update_event_sets / update_in_event_sets are S |-> S + {multiset(events)} for a "
+        "non-empty list and the identity otherwise (the union lemma: learning is a fold of set unions, hence independent of chunking, order and "
+        "repetition); event_inputs_to_events (model loading) yields exactly the listed event types, each with exactly the listed successor / "
+        "predecessor multisets, and every loaded event satisfies the invariant - so its gate tree is recomputed from the loaded sets. A mechanical scan "
+        "of tel2puml/** turns every syntactic mutation site of event_sets / the cached tree into an obligation `Event.frame@<function>` that must be "
+        "covered by such a contract. BOUNDED complement (not counted as proved): on the real code with real model files, for all job sets of <= 3 jobs "
+        "from a 7-job family and every split into save -> load -> continue, the final model has the event types, sets, counts and gate trees of the "
+        "one-shot run, and the model file round-trips.",
+        "Trusted / not covered: EventSet is viewed as the multiset it denotes (equal counts <=> equal value; the concrete dict subclass and its "
+        "__eq__/__hash__/to_event_set_count_input_list are exercised only by the runtime contracts and the bounded harness, not proved); "
+        "calculate_logic_gates is an uninterpreted pure function; that the diagram depends on the model only through sets and trees is C03 (not "
+        "decided); mutation through an alias of the set object is invisible to the syntactic frame scan; object allocation freshness; pyvc; z3/cvc5; the "
+        "janus stand-in (bounded part).",
+        "contract-based deductive verification (ast -> VCs -> z3/cvc5) + mechanical frame scan + runtime contracts / bounded model round-trip", "DESIGN.md 4/C04"),
     chk("C08", "proof",
         "Every function of tel2puml/otel_to_pv/sequence_otel.py between a trace and its PV job, except the recursion itself, is under contract "
         "and every enrolled obligation generated from the current source is discharged for all inputs (no bound on list lengths): ordering by "
@@ -91,7 +109,6 @@ NOT_APPLICABLE = [
     {"property_id": "C05", "reason": "text well-formedness depends on the nesting shapes the heuristic walk can emit; the emitter alone has no closed precondition (DESIGN 5)"},
     {"property_id": "C07", "reason": "recursive SCC decomposition with reachability over mutated graphs; inputs 'graphs the learner can build' have no closed precondition (DESIGN 5)"},
     {"property_id": "C13", "reason": "needs a formal semantics of jq programs; contracts on string concatenation cannot express it (DESIGN 5)"},
-    {"property_id": "C04", "reason": "check under construction in this round (not yet registered)"},
     {"property_id": "C06", "reason": "check under construction in this round (not yet registered)"},
     {"property_id": "C14", "reason": "check under construction in this round (not yet registered)"},
 ]
